@@ -199,6 +199,13 @@ CLASSES = [
     ("CmpVerdict", "cmp/returns-model-proxy"), ("CmpWeird", "cmp/returns-deleted-explicit-bool-proxy"),
     ("CmpExplicitBool", "cmp/returns-explicit-bool"), ("CmpVoid", "cmp/returns-void"), ("CmpEqOnlyBool", "cmp/eq-only-rewritten-ne"),
     ("CmpNonConst", "cmp/nonconst-only"), ("CmpNeDeleted", "cmp/ne-deleted"),
+    # round 3/4 witnesses
+    ("CycA", "cyclic-conv/a"), ("CycB", "cyclic-conv/b"), ("CycC", "cyclic-conv/c"), ("UserL", "user-common-type/l"),
+    ("UserR", "user-common-type/r"), ("UserX", "user-common-type/x"), ("Inv", "member-holder"), ("InvDerived", "member-holder-derived"),
+    ("FunOvl", "functor-overloaded-on-arg-category"), ("FunOvlObj", "functor-overloaded-on-object-category"),
+    ("SwA", "swap/one-direction-a"), ("SwB", "swap/one-direction-b"), ("SwC", "swap/both-directions-c"), ("SwD", "swap/both-directions-d"),
+    ("AssignReturnsValue", "assign/returns-value"), ("AssignReturnsConstRef", "assign/returns-const-ref"), ("AssignReturnsInt", "assign/returns-int"),
+    ("DelDtorFromInt", "ctor-from-int-deleted-dtor"), ("ThrowDtorFromInt", "ctor-from-int-class/throwing-dtor"),
     ("std::reference_wrapper<int>", "std-reference-wrapper"), ("etl::reference_wrapper<int>", "etl-reference-wrapper"),
 ]
 for s, c in CLASSES:
@@ -243,6 +250,8 @@ ADV_BASE = [
     ("ConstLvalOnlyConv", "int"), ("int", "DelFromInt"), ("long", "DelFromInt"), ("ExplicitCopy", "ExplicitCopy"),
     ("WeirdBool", "bool"), ("Verdict", "bool"), ("ExplicitBool", "bool"), ("LvalueOnlyBool", "bool"), ("ThrowingConvToInt", "int"),
     ("int", "AssignFromIntOnly"), ("int", "AssignReturnsVoid"), ("int", "AssignRvalueOnly"),
+    ("int", "AssignReturnsValue"), ("int", "AssignReturnsConstRef"), ("int", "AssignReturnsInt"), ("int", "DelDtorFromInt"),
+    ("int", "ThrowDtorFromInt"), ("SwA", "SwB"), ("SwC", "SwD"), ("UserL", "UserR"), ("UserL", "UserX"), ("CycA", "CycB"), ("CycB", "CycC"),
     ("ConvToArrayRef", "int*"), ("ConvToFnPtr", "FnPtr"), ("ExplicitConvToInt", "int"), ("int", "ExplicitFromInt"),
 ]
 # decay targets and sources: arrays and functions
